@@ -42,6 +42,7 @@ type CheckCtx struct {
 	Counts  map[string]int
 	Samples []any
 	Notes   []string
+	Self    []selfTestResult
 	cache   map[string]*Analysis
 	seen    map[string]bool
 }
@@ -177,7 +178,16 @@ func runCheck(id, tier string, w *World, loadErr error, t0 time.Time) int {
 				}
 			}()
 			c.Run(cx)
+			if tier == "thorough" {
+				noDynamicCalls(cx)
+			}
 		}()
+		if tier == "thorough" {
+			cx.Self = selfTest(cx)
+			for _, r := range cx.Self {
+				fmt.Printf("selftest %s: expected %s, %s %v %s\n", r.Seed, r.Expected, r.Outcome, r.Rules, r.Note)
+			}
+		}
 	}
 	return finish(c, cx, t0)
 }
@@ -270,6 +280,10 @@ func finish(c *Check, cx *CheckCtx, t0 time.Time) int {
 		"evaluations":         len(cx.Obls),
 		"distinct_nontrivial": len(cx.Obls),
 		"rule":                "one obligation per (rule, construct) found in the working tree; every one is distinct by key and non-trivial in that it is decided from the code, not assumed",
+	}
+	if cx.Tier == "thorough" {
+		cov["selftest"] = cx.Self
+		cov["selftest_note"] = "seeded changes of this property applied to scratch copies of the working tree; informational, never changes the exit status"
 	}
 	if c.Level == "translation_validation" {
 		cov["programs"] = cx.Counts["programs"]
